@@ -391,12 +391,24 @@ pub fn generate(s: &mut Session, thorough: bool) -> bool {
     // (v) fresh processes: 3 children recompute every original event
     let dir = std::env::temp_dir().join(format!("verif-c11-{}", std::process::id()));
     let _ = std::fs::create_dir_all(&dir);
-    let file = dir.join("events.txt");
-    let text: String = cx.child_lines.iter().map(|(l, _)| format!("{l}\n")).collect();
     let mut child_ok = 0usize;
-    if std::fs::write(&file, text).is_ok() {
+    {
         if let Ok(exe) = std::env::current_exe() {
             for k in 0..3 {
+                // each child sees the events in a different order (child 0: as here; child 1: reversed;
+                // child 2: rotated by a third): a result must not depend on what was computed before
+                // it in the same process (hidden state kept in a static: seed C11-8)
+                let nl = cx.child_lines.len();
+                let order: Vec<usize> = match k {
+                    0 => (0..nl).collect(),
+                    1 => (0..nl).rev().collect(),
+                    _ => (0..nl).map(|i| (i + nl / 3) % nl.max(1)).collect(),
+                };
+                let file = dir.join(format!("events{k}.txt"));
+                let text: String = order.iter().map(|&i| format!("{}\n", cx.child_lines[i].0)).collect();
+                if std::fs::write(&file, text).is_err() {
+                    continue;
+                }
                 let out = std::process::Command::new(&exe)
                     .args(["replay", "--file", file.to_str().unwrap(), "--driver", "/bin/cat"])
                     .output();
@@ -409,7 +421,8 @@ pub fn generate(s: &mut Session, thorough: bool) -> bool {
                     continue;
                 }
                 child_ok += 1;
-                for ((req, want), got) in cx.child_lines.iter().zip(answers) {
+                for (&i, got) in order.iter().zip(answers) {
+                    let (req, want) = &cx.child_lines[i];
                     if want != got {
                         s.push_oracle("fresh-process", req.replacen("c11res", "event", 1), want.clone(),
                             Some(format!("child process {k} computed `{got}`, this process `{want}`")));
